@@ -102,6 +102,13 @@ var styleNames = map[int]string{xgen.StyleBare: "bare", xgen.StyleNumber: "numbe
 func c16Literal(c *mon.Ctx, s string, style int, r *xgen.Renderer) {
 	lit := &xgen.Lit{S: s, Style: style}
 	txt := r.RenderLit(lit, true)
+	if style == xgen.StyleBacktick && r.R != nil && r.R.Intn(3) == 0 {
+		// a backtick literal is a Go raw string: carriage returns inside it
+		// are not part of the string it denotes
+		k := r.R.Intn(len(s) + 1)
+		txt = "`" + s[:k] + "\r" + s[k:] + "`"
+		c.Count("lit:backtick-with-carriage-return")
+	}
 	for _, form := range []string{"X == " + txt, "X != " + txt, txt + " in X", "X contains " + txt, "X matches " + txt} {
 		c.Evals(1)
 		obs := observeParse(form, safeBudget)
@@ -396,7 +403,7 @@ func init() {
 		NumCases: func(tier string) int { return len(c16FixedStrings) + tierN(tier, 30000, 1500000) },
 		Run:      c16Run,
 		Required: func(tier string) []string {
-			l := []string{"tree_cases", "literal_cases", "with_needed_parens", "with_redundant_parens", "lit:bare", "lit:number", "lit:quoted", "lit:backtick"}
+			l := []string{"tree_cases", "literal_cases", "with_needed_parens", "with_redundant_parens", "lit:bare", "lit:number", "lit:quoted", "lit:backtick", "lit:backtick-with-carriage-return"}
 			for _, s := range c16Slots {
 				for _, k := range c16Kinds {
 					l = append(l, "pc:"+s+"="+k)
